@@ -227,6 +227,14 @@ def gen_reasm(tier, r):
             replies[j] = ref_encode(sibs + [frag]) if r.random() < 0.5 else ref_encode([frag] + sibs)
         if i % 40 == 11:
             replies = [ref_encode([(12, b"\x07\x01\x02")]), ref_encode(items)]   # unterminated buffer, then a plain reply
+        if i % 40 == 31:
+            # a ZERO-LENGTH FragmentData piece with items beside it leaves the buffer empty; the exchange then ends
+            # with a payload that has no fragment item (empty, or ordinary items): the items sent beside the empty
+            # fragment are still part of the reply
+            sibs = r.choice([[(6, b"\x04"), (7, b"\x02")], [(7, b"\x06")], [(6, b"\x05")]])
+            tail = r.choice([b"", ref_encode([(2, b"salt"), (3, b"pk")]), ref_encode(items)])
+            replies = [ref_encode(sibs + [(12, b"")]), tail] if r.random() < 0.7 else \
+                      [ref_encode([(12, b"")] + sibs), ref_encode([(12, b"")]), tail]
         if 0.9 < m < 0.93:
             replies = [ref_encode(items)]                   # plain, unfragmented reply
         if 0.93 <= m < 0.95:
